@@ -25,19 +25,36 @@ ASSUMPTIONS = [
 
 def leaf_contract(ctx, prog):
     F = prog.fn("pipe_nonblocking")
-    fc = [n for n in F.calls("fcntl")]
-    cmds = [const_of(prog, n["c"][2]) for n in fc]
-    same_fd = all(expr_str(strip(n["c"][1])) == F.params[0]["name"] for n in fc)
-    sel = None
-    for n in F.walk():
-        if n["k"] == "ConditionalOperator" and expr_str(strip(n["c"][0])) == F.params[1]["name"]:
-            a, b = strip(n["c"][1]), strip(n["c"][2])
-            if a["k"] == "BinaryOperator" and a["op"] == "|" and b["k"] == "BinaryOperator" and b["op"] == "&":
-                sel = (const_of(prog, a["c"][1]), const_of(prog, b["c"][1]))
+    # N0, semantic: for flags with O_NONBLOCK clear / set and enable false / true, what F_SETFL receives on the same descriptor
     O_NONBLOCK = 0o4000
-    ctx.ob("C17.N0", "pipe_nonblocking", "the mode helper reads the status flags (F_GETFL), sets O_NONBLOCK when enabling and clears exactly "
-           "O_NONBLOCK when disabling, and writes them back (F_SETFL) to the same descriptor", cmds == [3, 4] and same_fd and sel == (O_NONBLOCK, ~O_NONBLOCK),
-           {"fcntl_cmds": cmds, "masks": sel})
+    from ..models import failed
+    for init in (2, 2 | O_NONBLOCK):
+        for en in (0, 1):
+            seen_set = []
+
+            def m_fcntl(I_, fn, n, args, st, init=init):
+                if args[1] == fs(3):
+                    return [(failed(st, fn, n), fs(-1)), (st, fs(init))]
+                if args[1] == fs(4):
+                    seen_set.append((args[0], args[2] if len(args) > 2 else None))
+                    return [(failed(st, fn, n), fs(-1)), (st, fs(0))]
+                return [(failed(st, fn, n), fs(-1)), (st, I_.nonneg())]
+            I0 = new_interp(prog, extra_models={"fcntl": m_fcntl})
+            I0.overrides.pop("pipe_nonblocking", None)
+            I0.K = sorted(set(I0.K) | {2, O_NONBLOCK, 2 | O_NONBLOCK, ~O_NONBLOCK})
+            I0.Kset = set(I0.K)
+            I0.TOP_INT = frozenset(I0.K) | {"NEG", "POS"}
+            st0 = State()
+            st0.mem[("v", F.gdid(F.params[0]["did"]))] = fs(("fd", "under test", 0, 0))
+            st0.res[("fd", "under test", 0, 0)] = ("open", True, "pipe-read")
+            st0.mem[("v", F.gdid(F.params[1]["did"]))] = fs(en)
+            I0.run(F, [st0])
+            want = (init | O_NONBLOCK) if en else (init & ~O_NONBLOCK)
+            ok = bool(seen_set) and all(fdv == fs(("fd", "under test", 0, 0)) and v == fs(want) for fdv, v in seen_set)
+            ctx.ob("C17.N0", "pipe_nonblocking [flags %s O_NONBLOCK, enable=%d]" % ("with" if init & O_NONBLOCK else "without", en),
+                   "the mode helper reads the status flags (F_GETFL) and writes them back (F_SETFL) to the same descriptor with O_NONBLOCK set "
+                   "when enabling and exactly O_NONBLOCK cleared when disabling - also when the flag already has the requested value",
+                   ok, {"F_SETFL_argument": [show(v) for fdv, v in seen_set], "expected": want}, nontrivial=True)
     I = new_interp(prog)
     I.overrides.pop("pipe_nonblocking", None)
 
